@@ -34,7 +34,10 @@ def variants(quick, rng):
             for pre in (False, True) for shb in (False, True) if not (e == () and (w != "start" or pre))]
     if quick:
         allv = rng.sample(allv, 90) + [v for v in allv if v["extra"] == () and not v["shb"]][:36]
-    return vs + allv
+    # two interfaces in one section (e.g. merged captures), each with its own resolution / offset; packets alternate between them
+    two = [dict(fmt="pcapng", le=le, tsresol=r1, tsoffset=o1, extra=(), where="start", pre=False, shb=False, second_if=[r2, o2])
+           for le in (True, False) for r1, r2 in ((None, 9), (6, 3), (9, 0x80 | 20), (3, None)) for o1, o2 in ((None, None), (None, 3600), (3600, 0))]
+    return vs + allv + (two if not quick else rng.sample(two, 8))
 
 
 def render(pkts, v):
@@ -44,7 +47,8 @@ def render(pkts, v):
     pos = {"start": [0] * 3, "mid": [n // 2] * 3, "end": [n] * 3, "spread": [1, n // 2, n]}[v["where"]]
     extra = [(pos[i], k) for i, k in enumerate(v["extra"])]
     return pcapng_bytes(pkts, le=v["le"], tsresol=v["tsresol"], tsoffset=v["tsoffset"], extra=extra,
-                        pre_idb=("nrb",) if v["pre"] and v["extra"] else (), shb_opts=v["shb"]), False
+                        pre_idb=("nrb",) if v["pre"] and v["extra"] else (), shb_opts=v["shb"],
+                        second_if=tuple(v["second_if"]) if v.get("second_if") else None), False
 
 
 def _one(job):
@@ -85,9 +89,11 @@ def _one(job):
 def run(chk):
     quick = chk.tier == "quick"
     rng = random.Random(chk.seed)
-    r = tlc.run("Container", dict(NPkts="3", Resols='{"none","d3","d6","d9","b10","b20"}', Offsets="{0,3600}", ExtraKinds="{0,1,2,3,4}"),
-                invariants=["YieldedIndependentOfContainer", "YieldedIsPrefix"], timeout=600)
+    CC = dict(NPkts="3", Resols='{"none","d3","d6","d9","b10","b20"}', Offsets="{0,3600}", ExtraKinds="{0,1,2,3}", PerInterface="TRUE")
+    r = tlc.run("Container", CC, invariants=["YieldedIndependentOfContainer", "YieldedIsPrefix"], timeout=600)
     chk.tlc("Container variants", r)
+    r0 = tlc.run("Container", dict(CC, PerInterface="FALSE", ExtraKinds="{}"), invariants=["YieldedIndependentOfContainer"], timeout=600)
+    chk.tlc("Container: original reader (first interface's parameters for all) - documents the repaired defect", r0, expect_ok=False)
     vs = variants(quick, rng)
     bases = []
     kinds = [(R.TLS13, 0x1301), (R.TLS12, 0xC02F), (R.TLS10, 0x002F)] if quick else [(R.TLS13, 0x1301), (R.TLS13, 0x1303), (R.TLS12, 0xC02F), (R.TLS12, 0x003C),
